@@ -266,11 +266,11 @@ func (fc *FnCtx) instr(ins ssa.Instruction) {
 			// vacuity guard: every return statement must be reachable under the assumptions made so far
 			g.seq++
 			p := g.ld.fset.Position(posOf(ins))
-			g.obligs = append(g.obligs, &Oblig{Name: fmt.Sprintf("%s#cover(return@%d)", relFuncName(g.rootFn), len(fc.rets)+1), Kind: "cover", Func: relFuncName(fc.fn), Pos: p, seq: g.seq, reach: fc.curReach, goal: "false"})
+			g.obligs = append(g.obligs, &Oblig{Name: fmt.Sprintf("%s#cover(return@%d)", relFuncName(g.rootFn), len(fc.rets)+1), Kind: "cover", Func: relFuncName(fc.fn), Pos: p, seq: g.seq, reach: fc.curReach, goal: "false", blk: g.curBlk})
 		}
 		fc.pendingResults = rs
 		fc.applyGhostSets("return")
-		fc.rets = append(fc.rets, retRec{reach: fc.curReach, state: fc.cur.clone(), results: rs})
+		fc.rets = append(fc.rets, retRec{reach: fc.curReach, state: fc.cur.clone(), results: rs, blk: g.curBlk})
 	case *ssa.Panic:
 		if fc.noPanic {
 			fc.oblige("never-panics", "", posOf(ins), "false", "", "")
@@ -314,6 +314,16 @@ func (fc *FnCtx) instr(ins ssa.Instruction) {
 			fc.lockHeld(l.T, l.fld, l.obj, true, ins)
 		}
 		fc.storeLoc(l, fc.term(x.Val).t)
+		if al, ok := x.Addr.(*ssa.Alloc); ok && isConstAlloc(al) {
+			if g.constVal == nil {
+				g.constVal = map[ssa.Value]Val{}
+			}
+			v := fc.term(x.Val)
+			g.constVal[al] = v
+			if ci, ok := fc.closures[x.Val]; ok {
+				fc.closures[al] = ci
+			}
+		}
 	case *ssa.UnOp:
 		fc.unop(x)
 	case *ssa.BinOp:
@@ -377,8 +387,12 @@ func (fc *FnCtx) instr(ins ssa.Instruction) {
 		r := fc.newRef()
 		fc.setVal(x, r)
 		ci := &closureInfo{fn: x.Fn.(*ssa.Function)}
-		for _, b := range x.Bindings {
+		for i, b := range x.Bindings {
 			ci.bindings = append(ci.bindings, fc.term(b))
+			// a captured write-once variable is the same value inside the closure
+			if cv, ok := g.constVal[b]; ok && i < len(ci.fn.FreeVars) {
+				g.constVal[ci.fn.FreeVars[i]] = cv
+			}
 		}
 		fc.closures[x] = ci
 	case *ssa.MakeInterface:
@@ -454,9 +468,9 @@ func (fc *FnCtx) indexAddr(x *ssa.IndexAddr) {
 	switch u := x.X.Type().Underlying().(type) {
 	case *types.Slice:
 		fc.safety("bounds", posOf(x), fmt.Sprintf("(and (<= 0 %s) (< %s (slen %s)))", idx.t, idx.t, base.t))
-		fc.locs[x] = &Loc{kind: "elem", obj: fmt.Sprintf("(sarr %s)", base.t), idx: fmt.Sprintf("(+ (soff %s) %s)", base.t, idx.t), elem: u.Elem()}
+		fc.locs[x] = &Loc{kind: "elem", obj: fmt.Sprintf("(sarr %s)", base.t), idx: fmt.Sprintf("(|ix| (soff %s) %s)", base.t, idx.t), elem: u.Elem()}
 		g.declareFun("|ea|", "(Int Int) Int")
-		fc.defVal(x, fmt.Sprintf("(|ea| (sarr %s) (+ (soff %s) %s))", base.t, base.t, idx.t))
+		fc.defVal(x, fmt.Sprintf("(|ea| (sarr %s) (|ix| (soff %s) %s))", base.t, base.t, idx.t))
 	case *types.Pointer: // pointer to array
 		at := u.Elem().Underlying().(*types.Array)
 		fc.nilCheck(x.X, x)
@@ -529,6 +543,14 @@ func (fc *FnCtx) unop(x *ssa.UnOp) {
 			fc.defVal(x, wrapInt(x.Type(), fmt.Sprintf("(- %s)", v.t)))
 		}
 	case token.MUL: // load
+		if cv, ok := g.constVal[x.X]; ok {
+			// write-once local variable (possibly captured by closures): its value, not a heap read
+			fc.vals[x] = Val{t: cv.t, ty: x.Type(), tuple: cv.tuple}
+			if ci, ok := fc.closures[x.X]; ok {
+				fc.closures[x] = ci
+			}
+			return
+		}
 		l := fc.locOf(x.X)
 		fc.nilCheck(x.X, x)
 		if l.kind == "field" {
